@@ -5,3 +5,16 @@ chk("C01", "exploration",
     "Trusted: vp/sqfsimg.py (independent reader), the expectation rules in DESIGN.md Appendix A, sandbox file-system semantics. "
     "Covers only the generated inputs/configurations.",
     "differential decode of real tool output under ASan/UBSan", "3/C01")
+chk("C03", "exploration",
+    "Every image written by the ASan build of gensquashfs for layout-focused and random trees x configurations is parsed by the independent "
+    "reader and checked against the rule list of DESIGN.md 3/C03 (superblock/layout consistency, block size bounds, directory header/index rules, "
+    "inode numbering, link counts, table references); evidence counts evaluations per rule.",
+    "Trusted: vp/sqfsimg.py and its reading of doc/format.adoc. Rules deliberately exclude what the statement does not ask for "
+    "(directory nlink values, inode order, optional indexes).",
+    "independent validator over real tool output", "3/C03")
+chk("C18", "exploration",
+    "canonicalize_name / is_filename_sane are run on every string over {'/','.','a','b',0xC3} up to length 10 (quick) / 12 (thorough) and on seeded "
+    "random strings up to 4096 bytes, each in an exactly sized heap buffer under ASan+UBSan, and compared with an independent specification "
+    "(result, return value, no growth, idempotence, sanity equivalence). The enumeration is complete for the stated alphabet and length.",
+    "Trusted: the specification function in harness/canon_enum.c; ASan red zones for out-of-string accesses.",
+    "exhaustive enumeration against executable spec under ASan", "3/C18")
